@@ -75,27 +75,28 @@ def run(ctx):
                 rep.ob('R04.1', 'request leaf %s is in the MAC-verified preamble' % '.'.join(names), good,
                        'leaf %s does not occur in the preamble' % '.'.join(names), w, sn)
             # R04.2 double binding
-            ev = path_term(RESP, ['evaluation_element'])
-            rep.ob('R04.2', 'evaluation element feeds the randomized password', 'rp' in a and contains(a['rp'], ev), show(a.get('rp'))[:300], w, sn)
+            ev = role_term(ctx, sn, fin, 3, RESP, 'eval')
+            rep.ob('R04.2', 'evaluation element feeds the randomized password', ev is not None and 'rp' in a and contains(a['rp'], ev), show(a.get('rp'))[:300], w, sn)
             dec = a['decode_pk'][0][1] if a['decode_pk'] else None
             xors = find_apps(dec, 'xor') if dec is not None else []
             dec = xors[0] if xors else None
-            for names, ty in resp_leaves:
-                if names[0] in ('masking_nonce', 'masked_response'):
-                    rep.ob('R04.2', 'response leaf %s feeds the unmasking' % '.'.join(names), dec is not None and contains(dec, path_term(RESP, names)),
-                           'unmasked key bytes = %s' % show(dec)[:300], w, sn)
+            for names, chain in S.leaf_chains(fin.body['locals'][3]['ty']):
+                # every leaf outside the key-exchange message and other than the OPRF element is masking material
+                if any('Ke2Message<' in c for c in chain) or chain[-1].startswith('voprf::'):
+                    continue
+                rep.ob('R04.2', 'response leaf %s feeds the unmasking' % '.'.join(names), dec is not None and contains(dec, path_term(RESP, names)),
+                       'unmasked key bytes = %s' % show(dec)[:300], w, sn)
         # R04.6 the encodings under which leaves enter the preamble are the dependency codecs themselves (injective on accepted bytes)
         an.group_codec_purity(ctx, rep, 'R04.6', sn)
         # R04.4 reflection
-        for which, a_side, b_side in (('clog_finish', ['self'], ['response', 'evaluation_element']),
-                                      ('creg_finish', ['self'], ['response', 'evaluation_element'])):
+        for which, ridx in (('clog_finish', 3), ('creg_finish', 4)):
             s = api_summary(ctx, sn, which)
+            ev = role_term(ctx, sn, s, ridx, Sym('response'), 'eval')
             for p in s.ok_paths:
                 good = False
                 for i, e in enumerate(p.events):
                     if e[0] == 'assume' and e[2] == 0 and e[1][0] == 'app' and e[1][1] == 'ct_eq':
                         x, y = e[1][2]
-                        ev = path_term(Sym('response'), ['evaluation_element'])
                         other = y if x == ev else (x if y == ev else None)
                         if other is not None and is_whole_field_of(other, Sym('self')) and other[0] == 'fld':
                             good = True
